@@ -649,7 +649,7 @@ func specLines(f *ast.File, fset *token.FileSet) []struct {
 	return out
 }
 
-var clauseKeywords = []string{"assume-ensures", "stable", "iterates-requires", "iterates", "assume-result", "seq", "ghost-var", "requires-captured", "on-entry", "use", "requires", "ensures", "modifies", "loop", "inline", "pure", "trusted", "ghost-param", "after-call", "on-call", "on-send", "at", "decreases",
+var clauseKeywords = []string{"suppose", "assume-ensures", "stable", "iterates-requires", "iterates", "assume-result", "seq", "ghost-var", "requires-captured", "on-entry", "use", "requires", "ensures", "modifies", "loop", "inline", "pure", "trusted", "ghost-param", "after-call", "on-call", "on-send", "at", "decreases",
 	"props", "let", "assert", "guards", "invariant", "ghost", "field", "holds", "unit", "recv", "call"}
 
 func stripComment(s string) string {
@@ -979,6 +979,13 @@ func parseContractFile(pkg string, path string, f *ast.File, fset *token.FileSet
 			default:
 				errf(it.line, "assert outside event/lemma")
 			}
+		case "suppose":
+			if curLemma == nil {
+				errf(it.line, "suppose outside lemma")
+				continue
+			}
+			c := namedClause(it.line, rest)
+			curLemma.Steps = append(curLemma.Steps, LemmaStep{Kind: "suppose", Expr: c.Expr, Name: c.Name, Text: c.Text})
 		case "let":
 			if curLemma == nil {
 				errf(it.line, "let outside lemma")
